@@ -3,6 +3,7 @@ package main
 import (
 	"go/token"
 	"go/types"
+	"strings"
 
 	"golang.org/x/tools/go/ssa"
 )
@@ -239,12 +240,21 @@ func runReadAheadDiscarded(r *Report, rule string, f *ssa.Function) int {
 		}
 		// kept: stored in a field / package variable / map, returned, sent, or captured by a closure that is kept
 		kept := false
+		handedOn := map[ssa.Value]bool{} // what a method of the wrapper returned: the stream goes on through it
 		var visit func(v ssa.Value, d int)
 		visit = func(v ssa.Value, d int) {
-			if d > 4 || v.Referrers() == nil || kept {
+			if d > 6 || v.Referrers() == nil || kept {
 				return
 			}
 			for _, ref := range *v.Referrers() {
+				if ci, isCall := ref.(ssa.CallInstruction); isCall && handedOn[v] {
+					// the value the wrapper handed on is given to whoever continues with the stream
+					for _, a := range ci.Common().Args {
+						if a == v {
+							kept = true
+						}
+					}
+				}
 				switch x := ref.(type) {
 				case *ssa.Return, *ssa.Send, *ssa.MapUpdate:
 					kept = true
@@ -254,17 +264,22 @@ func runReadAheadDiscarded(r *Report, rule string, f *ssa.Function) int {
 					}
 					switch a := x.Addr.(type) {
 					case *ssa.Alloc:
+						handedOn[a] = handedOn[a] || handedOn[v]
 						visit(a, d+1)
 					default:
 						kept = true
 					}
 				case *ssa.UnOp:
+					handedOn[x] = handedOn[x] || handedOn[v]
 					visit(x, d+1)
 				case *ssa.MakeInterface:
+					handedOn[x] = handedOn[x] || handedOn[v]
 					visit(x, d+1)
 				case *ssa.ChangeType:
+					handedOn[x] = handedOn[x] || handedOn[v]
 					visit(x, d+1)
 				case *ssa.Phi:
+					handedOn[x] = handedOn[x] || handedOn[v]
 					visit(x, d+1)
 				case *ssa.MakeClosure:
 					kept = true
@@ -272,7 +287,13 @@ func runReadAheadDiscarded(r *Report, rule string, f *ssa.Function) int {
 					// handed to a constructor that wraps it (textproto.NewReader, a struct literal helper):
 					// the result of the call carries it; follow the result
 					if cv, ok := x.(ssa.Value); ok && x.Common().Value != v {
-						if _, isPtr := cv.Type().Underlying().(*types.Pointer); isPtr {
+						switch cv.Type().Underlying().(type) {
+						case *types.Pointer, *types.Interface:
+							// a wrapper built around it, or what a method of the wrapper hands on
+							// (`conn = hc.detach()`: the stream continues through the buffered reader)
+							if args := x.Common().Args; !x.Common().IsInvoke() && x.Common().Signature().Recv() != nil && len(args) > 0 && args[0] == v && x.Common().StaticCallee() != nil && x.Common().StaticCallee().Pkg != nil && strings.HasPrefix(x.Common().StaticCallee().Pkg.Pkg.Path(), Module) {
+								handedOn[cv] = true
+							}
 							visit(cv, d+1)
 						}
 					}
